@@ -65,6 +65,7 @@ structure Oracle where
   staleNames : List String := []     -- names whose (re)started instance did not begin in state Pending
   termPending : List String := []    -- live command signalled by a stop with a kill timeout configured; neither exited nor killed yet
   retd : List String := []           -- api ids that have returned
+  stopTarget : List (String × Nat) := []   -- name ↦ highest instance number that existed when a stop / restart of the name was requested
   steps : Nat := 0
 deriving Repr, Inhabited
 
@@ -221,6 +222,7 @@ def onObs (o : Oracle) (op : List String) (cmdAfter : List String)
     -- C08: an instance that a served restart / stop-and-start has replaced (a newer instance of the name
     -- exists, nobody else is asking, and it was not caught inside a check-then-act window) launches nothing
     let superseded := if actor op == x && actorSeq op > 0 && actorSeq op < lookupD o.seenSeq x 0 && inflight == 0
+          && actorSeq op ≤ lookupD o.stopTarget x 0      -- it is an instance a stop / restart request was aimed at
           && !(o.winNames.contains x) then
         [s!"C08:superseded-instance-launched {x}#{actorSeq op}"] else []
     let afterStop := afterStop ++ during ++ reqd ++ early ++ superseded
@@ -380,6 +382,10 @@ def feed (o : Oracle) (op : List String) (impl : String) : Oracle × String :=
       if o.prevCmd.contains x then { o with probeOkEver := addS o.probeOkEver x, readySince := addS o.readySince x } else o
     | "s" :: "call" :: id :: rest =>
       let o := { o with calls := setKV o.calls id rest, retd := delS o.retd id }
+      let o := match rest with
+        | ["stop", x] | ["restart", x] =>
+          { o with stopTarget := setKV o.stopTarget x (max (lookupD o.stopTarget x 0) (lookupD o.seenSeq x 0)) }
+        | _ => o
       match rest with
       | ["start", x] =>
         let single := ((csv th).filter fun (t : String) => procNameOfKey ((t.splitOn "@").headD "") == some x).length == 1
